@@ -5,7 +5,7 @@ from ..cfg import CFG
 from ..index import AnchorVanished, Undecided
 from ..match import (src, dotted, walk_local, walk_unit, calls_in, const, NOCONST, is_none,
                      assigned_targets, callee_attr, receiver, mentions, shape, shape_prefix, Hole,
-                     shape_text, FUNC_TYPES)
+                     shape_text, FUNC_TYPES, eval_small, UNKNOWN, Unknown)
 
 _cfg_cache = {}
 
@@ -248,118 +248,6 @@ def fmt_path(cfg, nodes, limit=8):
     return ' -> '.join(parts)
 
 
-# ---------------------------------------------------------------- tiny evaluator
-class Unknown(object):
-    def __repr__(self):
-        return '?'
-
-
-UNKNOWN = Unknown()
-
-
-def eval_small(e, env):
-    """Evaluate a comparison-style expression over an environment mapping dotted
-    texts to concrete representative values. Returns UNKNOWN when the
-    expression consults anything else.  Used to decide tests that look at a
-    value *only through comparisons with constants* for one representative of
-    each ordering class."""
-    if isinstance(e, ast.Constant):
-        return e.value
-    d = dotted(e)
-    if d is not None:
-        if d in env:
-            return env[d]
-        return UNKNOWN
-    if isinstance(e, ast.UnaryOp) and isinstance(e.op, ast.Not):
-        v = eval_small(e.operand, env)
-        return UNKNOWN if v is UNKNOWN else (not v)
-    if isinstance(e, ast.UnaryOp) and isinstance(e.op, ast.USub):
-        v = eval_small(e.operand, env)
-        return UNKNOWN if v is UNKNOWN else -v
-    if isinstance(e, ast.BoolOp):
-        vals = [eval_small(v, env) for v in e.values]
-        if isinstance(e.op, ast.And):
-            for v in vals:
-                if v is UNKNOWN:
-                    break
-                if not v:
-                    return v
-            else:
-                return vals[-1]
-            if any(v is not UNKNOWN and not v for v in vals):
-                return False
-            return UNKNOWN
-        for v in vals:
-            if v is UNKNOWN:
-                break
-            if v:
-                return v
-        else:
-            return vals[-1]
-        if any(v is not UNKNOWN and v for v in vals):
-            return True
-        return UNKNOWN
-    if isinstance(e, ast.Compare):
-        left = eval_small(e.left, env)
-        if left is UNKNOWN:
-            return UNKNOWN
-        for op, right in zip(e.ops, e.comparators):
-            r = eval_small(right, env)
-            if r is UNKNOWN:
-                return UNKNOWN
-            try:
-                if isinstance(op, ast.Eq):
-                    ok = left == r
-                elif isinstance(op, ast.NotEq):
-                    ok = left != r
-                elif isinstance(op, ast.Lt):
-                    ok = left < r
-                elif isinstance(op, ast.LtE):
-                    ok = left <= r
-                elif isinstance(op, ast.Gt):
-                    ok = left > r
-                elif isinstance(op, ast.GtE):
-                    ok = left >= r
-                elif isinstance(op, ast.Is):
-                    ok = left is r
-                elif isinstance(op, ast.IsNot):
-                    ok = left is not r
-                elif isinstance(op, ast.In):
-                    ok = left in r
-                elif isinstance(op, ast.NotIn):
-                    ok = left not in r
-                else:
-                    return UNKNOWN
-            except TypeError:
-                return UNKNOWN
-            if not ok:
-                return False
-            left = r
-        return True
-    if isinstance(e, (ast.Tuple, ast.List, ast.Set)):
-        vals = [eval_small(x, env) for x in e.elts]
-        if any(v is UNKNOWN for v in vals):
-            return UNKNOWN
-        return vals
-    if isinstance(e, ast.BinOp) and isinstance(e.op, (ast.FloorDiv, ast.Div, ast.Mod, ast.Sub, ast.Add)):
-        l, r = eval_small(e.left, env), eval_small(e.right, env)
-        if l is UNKNOWN or r is UNKNOWN:
-            return UNKNOWN
-        try:
-            if isinstance(e.op, ast.FloorDiv):
-                return l // r
-            if isinstance(e.op, ast.Div):
-                return l / r
-            if isinstance(e.op, ast.Mod):
-                return l % r
-            if isinstance(e.op, ast.Sub):
-                return l - r
-            return l + r
-        except Exception:
-            return UNKNOWN
-    return UNKNOWN
-
-
 def int_constants_compared_with(unit_or_units, text):
     """integer constants appearing in comparisons (or arithmetic inside comparisons)
     that mention dotted `text`."""
@@ -398,3 +286,119 @@ def hook_for_env(env, frozen_after_write=True):
             return None
         return bool(v)
     return hook
+
+
+# ------------------------------------------------------------ reaching definitions
+def node_assigns(n, name):
+    """does CFG node n write local/dotted `name`?"""
+    a = n.ast
+    if a is None:
+        return False
+    if n.kind == 'iter':
+        return name in assigned_targets(a)
+    if n.kind == 'with':
+        return name in assigned_targets(a)
+    if n.kind == 'handler':
+        return a.name == name
+    if n.kind == 'def':
+        return getattr(a, 'name', None) == name
+    if isinstance(a, ast.stmt):
+        return name in assigned_targets(a)
+    return False
+
+
+def reaching_defs(g, node, name):
+    """CFG nodes assigning `name` that reach `node` without an intervening assignment.
+    The pseudo-definition 'entry' (parameter / undefined) is reported as g.entry."""
+    out, seen = [], set()
+    stack = [p for _, p in node.pred]
+    while stack:
+        n = stack.pop()
+        if n.id in seen:
+            continue
+        seen.add(n.id)
+        if node_assigns(n, name):
+            out.append(n)
+            continue
+        if n is g.entry:
+            out.append(n)
+            continue
+        for _, p in n.pred:
+            stack.append(p)
+    return out
+
+
+def def_value(n, name):
+    """value expression node n assigns to name (Assign only), else None."""
+    if n.ast is not None and isinstance(n.ast, ast.Assign):
+        return assign_to(n.ast, name)
+    return None
+
+
+# ------------------------------------------------------------------- call graph
+def resolve_refs(idx, unit):
+    """Units referenced from `unit`: calls and bare references (callbacks) to
+    self.<method>, nested/sibling functions, module-level functions of the package.
+    Returns [(target_unit, ast_node, 'call'|'ref')]."""
+    out = []
+    ci = unit.owner_cls
+    mod = unit.module
+    called = set()
+    for a in walk_unit(unit):
+        if isinstance(a, ast.Call):
+            called.add(id(a.func))
+    for a in walk_unit(unit):
+        kind = 'call' if id(a) in called else 'ref'
+        tgt = None
+        if isinstance(a, ast.Attribute) and isinstance(a.value, ast.Name) and a.value.id == 'self' and ci is not None \
+                and isinstance(a.ctx, ast.Load):
+            tgt = idx.find_method(ci, a.attr)
+        elif isinstance(a, ast.Name) and isinstance(a.ctx, ast.Load):
+            u = unit
+            while u is not None and tgt is None:
+                for c in u.children:
+                    if c.name == a.id:
+                        tgt = c
+                        break
+                u = u.parent
+            if tgt is None and a.id in mod.functions:
+                tgt = mod.functions[a.id]
+            if tgt is None and a.id in mod.imports:
+                origin = mod.imports[a.id]
+                mname, _, fname = origin.rpartition('.')
+                if mname in idx.modules and fname in idx.modules[mname].functions:
+                    tgt = idx.modules[mname].functions[fname]
+        elif isinstance(a, ast.Attribute) and isinstance(a.ctx, ast.Load):
+            d = dotted(a)
+            if d and '.' in d:
+                head, _, fname = d.rpartition('.')
+                origin = mod.imports.get(head)
+                if origin in idx.modules and fname in idx.modules[origin].functions:
+                    tgt = idx.modules[origin].functions[fname]
+        elif isinstance(a, ast.Lambda):
+            for c in unit.children:
+                if c.node is a:
+                    tgt = c
+        if tgt is not None and tgt is not unit:
+            out.append((tgt, a, kind))
+    return out
+
+
+def reach_units(idx, roots, cut=()):
+    """units reachable from roots through resolve_refs, not expanding units named in `cut`."""
+    seen, order = set(), []
+    stack = list(roots)
+    while stack:
+        u = stack.pop()
+        if u.qual in seen:
+            continue
+        seen.add(u.qual)
+        order.append(u)
+        if u.name in cut and u not in roots:
+            continue
+        for t, a, k in resolve_refs(idx, u):
+            stack.append(t)
+        for c in u.children:
+            if isinstance(c.node, ast.Lambda):
+                stack.append(c)
+    return order
